@@ -25,12 +25,14 @@ func init() {
 
 func runC17(c *Ctx) {
 	c.Assumptions = append(c.Assumptions, "time.Duration arithmetic does not overflow for configured timeouts", "utils.Timer fires its callback at most once")
-	c.Rule("C17.R1", "header finalisation order route -> vhost -> global; add before remove; append joins", 6)
+	c.Rule("C17.R1", "header finalisation order route -> vhost -> global; add before remove; append joins; every addition applied", 7)
 	c.Rule("C17.R2", "direct response / redirect reply with the rule's values and return before any pool is touched", 5)
 	c.Rule("C17.R3", "retry is decided before the response is marked started; reset retries only before the response started", 5)
 	c.Rule("C17.R4", "retry budget checked and decremented on every retry decision; single writer", 4)
 	c.Rule("C17.R5", "a retry re-selects the host and builds a fresh upstream request", 3)
 	c.Rule("C17.R7", "one global deadline per request: armed at first send with GlobalTimeout, never re-armed by a retry; per-try timer per attempt", 3)
+	c.Rule("C17.R8", "path rewrite (prefix, regex) and host rewrite apply exactly the configured action, original path saved, documented precedence", 6)
+	defer c17Rewrite(c, "pkg/proxy")
 	c.Rule("C17.R6", "timeout sources applied lowest priority first; default only when zero", 4)
 	c.NotDecided = append(c.NotDecided, "header values, regex rewrites and URL composition on concrete inputs", "retry-on condition tables (status code lists) on concrete responses")
 
@@ -88,23 +90,52 @@ func runC17(c *Ctx) {
 		ba := newBA(c, fn)
 		ok := len(sets) == 1 && len(dels) == 1 && ba.mayPrecede(sets[0].Instr, dels[0].Instr) && !ba.mayPrecede(dels[0].Instr, sets[0].Instr)
 		c.Check("C17.R1", funcKey(fn)+":add-before-remove", fn.Pos(), ok, "all additions are applied before the removals", "header additions are not all applied before the removals")
-		// the joined value is used only under append() && existing non-empty
-		joinOK := false
-		for _, cs := range callsIn(fn, false, func(cc *ssa.CallCommon) bool { return calleeName(cc) == "fmt.Sprintf" }) {
-			app, nonEmpty := false, false
-			for _, g := range guardsAt(cs.Instr.Block()) {
-				if call, ok := g.Cond.(*ssa.Call); ok && methodName(call.Common()) == "append" && g.True {
-					app = true
-				}
-				if bo, ok := g.Cond.(*ssa.BinOp); ok && bo.Op == token.GTR && g.True && isZero(bo.Y) {
-					nonEmpty = true
-				}
+		// the existing header value takes part in the new value only under append() && existing non-empty
+		// (whatever builds the string: Sprintf or concatenation)
+		joinOK, nUse := true, 0
+		for _, g := range callsIn(fn, false, func(cc *ssa.CallCommon) bool { return cc.IsInvoke() && cc.Method.Name() == "Get" }) {
+			tuple, ok := g.Instr.(ssa.Value)
+			if !ok {
+				continue
 			}
-			if app && nonEmpty {
-				joinOK = true
+			for _, r := range refs(tuple) {
+				ex, ok := r.(*ssa.Extract)
+				if !ok || ex.Index != 0 {
+					continue
+				}
+				for _, use := range stringBuildUses(ex) {
+					nUse++
+					app, nonEmpty := false, false
+					for _, gd := range guardsAt(use.Block()) {
+						if call, ok := gd.Cond.(*ssa.Call); ok && methodName(call.Common()) == "append" && gd.True {
+							app = true
+						}
+						if bo, ok := gd.Cond.(*ssa.BinOp); ok && bo.Op == token.GTR && gd.True && isZero(bo.Y) {
+							nonEmpty = true
+						}
+					}
+					if !app || !nonEmpty {
+						joinOK = false
+					}
+				}
 			}
 		}
-		c.Check("C17.R1", funcKey(fn)+":append-joins", fn.Pos(), joinOK, "values are joined only when append is configured and a non-empty value exists; otherwise overwritten", "the append/overwrite distinction of header additions is lost")
+		c.Check("C17.R1", funcKey(fn)+":append-joins", fn.Pos(), joinOK && nUse >= 1, "the existing value is joined in only when append is configured and it is non-empty; otherwise overwritten", "the append/overwrite distinction of header additions is lost")
+		// every configured addition is applied: no iteration of the additions loop skips headers.Set
+		setEvery := false
+		if len(sets) == 1 {
+			st := sets[0].Instr
+			for h, body := range naturalLoops(fn) {
+				if !body[st.Block()] {
+					continue
+				}
+				from := h.Instrs[len(h.Instrs)-1]
+				skip := existsPathEdges(fn, from, func(in ssa.Instruction) bool { return in.Block() == h }, func(in ssa.Instruction) bool { return in == st },
+					func(a, b *ssa.BasicBlock) bool { return body[b] })
+				setEvery = skip == nil
+			}
+		}
+		c.Check("C17.R1", funcKey(fn)+":every-addition-applied", fn.Pos(), setEvery, "headers.Set runs in every iteration over the configured additions", "a configured header addition can be skipped (no headers.Set on some iteration): with overwrite semantics the peer-supplied value survives instead of being replaced")
 	}
 
 	// R2
@@ -533,4 +564,45 @@ func timeoutSource(st *ssa.Store) string {
 		return ""
 	}
 	return walk(st.Val, 0)
+}
+
+// stringBuildUses: instructions that build a string from v: string concatenations and Sprintf-style calls receiving v
+// (directly or through the variadic argument pack).
+func stringBuildUses(v ssa.Value) []ssa.Instruction {
+	var out []ssa.Instruction
+	seen := map[ssa.Value]bool{}
+	var walk func(x ssa.Value, d int)
+	walk = func(x ssa.Value, d int) {
+		if seen[x] || d > 4 {
+			return
+		}
+		seen[x] = true
+		for _, r := range refs(x) {
+			switch u := r.(type) {
+			case *ssa.BinOp:
+				if u.Op == token.ADD {
+					out = append(out, u)
+				}
+			case *ssa.MakeInterface:
+				walk(u, d+1)
+			case *ssa.Store:
+				// variadic pack: *(&pack[i]) = iface
+				if ia, ok := u.Addr.(*ssa.IndexAddr); ok && u.Val == x {
+					if al, ok := ia.X.(*ssa.Alloc); ok {
+						for _, r2 := range refs(al) {
+							if sl, ok := r2.(*ssa.Slice); ok {
+								for _, r3 := range refs(sl) {
+									if call, ok := r3.(*ssa.Call); ok && strings.Contains(calleeName(call.Common()), "Sprint") {
+										out = append(out, call)
+									}
+								}
+							}
+						}
+					}
+				}
+			}
+		}
+	}
+	walk(v, 0)
+	return out
 }
